@@ -174,6 +174,7 @@ func vfC07(c *hx.Ctx) {
 	c.Rule("real fecEncoder -> real fecDecoder; for each (d,p), group position (incl. 2^31 and the wrap value, tracked and fresh decoder) and payload-size vector: EVERY arrival sequence of length <= n+1 over the focus group's " +
 		"n=d+p packets plus two packets of the next group (all subsets, orders, duplicates, late arrivals, interleaving; for groups of more than 5 packets: sequences up to a shorter length plus EVERY arriving subset in four orders); oracle at every step: exactly the not-yet-received data packets come out when the d-th distinct packet arrives, " +
 		"byte-identical with exact length and zero padding, nothing else ever. Non-trivial = sequences in which a recovery is due.")
+	vfC07Session(c)
 	ratios := [][2]int{{1, 1}, {1, 2}, {2, 1}, {2, 2}, {3, 1}, {3, 2}, {3, 3}, {4, 2}, {5, 3}, {10, 3}}
 	if !c.Quick() {
 		ratios = append(ratios, [2]int{6, 2}, [2]int{4, 4})
